@@ -34,6 +34,10 @@ type callPlan struct {
 	Hold int `json:"hold_late_answer_for_calls,omitempty"`
 	// Cause: the call's context is cancelled with a cause of the caller's own (WithCancelCause / WithTimeoutCause)
 	Cause bool `json:"cancel_with_cause,omitempty"`
+	// Op: "" = Activate through Client.Request (the identifier travels in the payload); query | discover = a Query /
+	// Discover Versions request through Client.Roundtrip (the identifier travels as the item's Unique Batch Item ID,
+	// which the server sends back): what a call may receive does not depend on what it asks for
+	Op string `json:"operation,omitempty"`
 }
 type c10Case struct {
 	Callers [][]callPlan `json:"callers"`
@@ -59,8 +63,22 @@ func echoResponse(req *ttlvref.Node) []byte {
 	hdr.Kids = append(hdr.Kids, &ttlvref.Node{Tag: tBatchCount, Type: ttlvref.Integer, I: 1})
 	id := find(req, 0x420094)
 	op := find(req, tOperation)
-	item := &ttlvref.Node{Tag: tBatchItem, Type: ttlvref.Structure, Kids: []*ttlvref.Node{op.Clone(), {Tag: tResultStatus, Type: ttlvref.Enumeration, I: 0},
-		{Tag: tResponsePayload, Type: ttlvref.Structure, Kids: []*ttlvref.Node{id.Clone()}}}}
+	item := &ttlvref.Node{Tag: tBatchItem, Type: ttlvref.Structure, Kids: []*ttlvref.Node{op.Clone()}}
+	payload := &ttlvref.Node{Tag: tResponsePayload, Type: ttlvref.Structure}
+	if bid := find(req, tUniqueBatchID); bid != nil {
+		item.Kids = append(item.Kids, bid.Clone())
+		switch op.I {
+		case 0x18: // Query: the identifier also goes into the Vendor Identification
+			payload.Kids = append(payload.Kids, &ttlvref.Node{Tag: 0x42009D, Type: ttlvref.TextString, B: bid.B})
+		case 0x1E: // Discover Versions
+			payload.Kids = append(payload.Kids, &ttlvref.Node{Tag: 0x420069, Type: ttlvref.Structure, Kids: []*ttlvref.Node{
+				{Tag: 0x42006A, Type: ttlvref.Integer, I: 1}, {Tag: 0x42006B, Type: ttlvref.Integer, I: 4}}})
+		}
+	}
+	if id != nil {
+		payload.Kids = append(payload.Kids, id.Clone())
+	}
+	item.Kids = append(item.Kids, &ttlvref.Node{Tag: tResultStatus, Type: ttlvref.Enumeration, I: 0}, payload)
 	return ttlvref.Write(&ttlvref.Node{Tag: 0x42007B, Type: ttlvref.Structure, Kids: []*ttlvref.Node{hdr, item}})
 }
 
@@ -99,6 +117,9 @@ func (s *c10Server) serve(c *memnet.Conn) {
 		}
 		req, _ := ttlvref.Parse(raw, ttlvref.Lenient)
 		idn := find(req, 0x420094)
+		if idn == nil {
+			idn = find(req, tUniqueBatchID)
+		}
 		if idn == nil {
 			return
 		}
@@ -216,7 +237,7 @@ func c10Run(c c10Case) (sig string, err error) {
 		// a call whose plan is "during-write" is cancelled when the first half of its request is on the wire
 		a.WriteHook = func(p []byte) (int, func()) {
 			for id, pl := range srv.plans {
-				if pl.Cancel == "at-write-end" && (bytes.Contains(p, []byte(id+"\x00")) || bytes.HasSuffix(bytes.TrimRight(p, "\x00"), []byte(id))) {
+				if pl.Cancel == "at-write-end" && bytes.Contains(p, []byte(id)) {
 					id := id
 					// cancelled when all but the last byte is written: the write then completes at once, so the caller sees
 					// "write completed" and "context cancelled" at the same moment (either may win)
@@ -229,7 +250,7 @@ func c10Run(c c10Case) (sig string, err error) {
 						}
 					}
 				}
-				if pl.Cancel == "during-write" && bytes.Contains(p, []byte(id+"\x00")) || pl.Cancel == "during-write" && bytes.HasSuffix(bytes.TrimRight(p, "\x00"), []byte(id)) {
+				if pl.Cancel == "during-write" && bytes.Contains(p, []byte(id)) {
 					id := id
 					return len(p) / 2, func() {
 						cmu.Lock()
@@ -383,6 +404,24 @@ func c10Run(c c10Case) (sig string, err error) {
 					current.Store(goid(), p.ID)
 					defer current.Delete(goid())
 					perr := safely(func() error {
+						if p.Op != "" {
+							var pl kmip.OperationPayload = &payloads.QueryRequestPayload{QueryFunction: []kmip.QueryFunction{kmip.QueryFunctionOperations, kmip.QueryFunctionServerInformation}}
+							if p.Op == "discover" {
+								pl = &payloads.DiscoverVersionsRequestPayload{}
+							}
+							msg := kmip.NewRequestMessage(kmip.V1_4, pl)
+							msg.BatchItem[0].UniqueBatchItemID = []byte(p.ID)
+							resp, err := cl.Roundtrip(ctx, &msg)
+							switch {
+							case err != nil:
+								r.Err = err.Error()
+							case len(resp.BatchItem) != 1:
+								r.Got = fmt.Sprintf("%d items", len(resp.BatchItem))
+							default:
+								r.Got = string(resp.BatchItem[0].UniqueBatchItemID)
+							}
+							return nil
+						}
 						resp, err := cl.Request(ctx, &payloads.ActivateRequestPayload{UniqueIdentifier: p.ID})
 						if err != nil {
 							r.Err = err.Error()
@@ -453,7 +492,7 @@ func c10Run(c c10Case) (sig string, err error) {
 
 func TestC10OwnResponse(t *testing.T) {
 	const name = "TestC10OwnResponse"
-	rec := evid.New("C10", name, "1..4 caller goroutines sharing one client, each issuing 1..4 calls with unique identifiers; per call a cancellation plan (none, context already cancelled, cancelled while the request is half written, cancelled at the moment its last byte is written, cancelled between send and receive once the server has read the request, "+
+	rec := evid.New("C10", name, "1..4 caller goroutines sharing one client, each issuing 1..4 calls with unique identifiers (Activate through Request, or Query / Discover Versions through Roundtrip); per call a cancellation plan (none, context already cancelled, cancelled while the request is half written, cancelled at the moment its last byte is written, cancelled between send and receive once the server has read the request, "+
 		"cancelled once the server has written the reply, cancelled explicitly a few milliseconds into the wait for the answer, 15 ms deadline) and a server plan (reply at once, reply late - after the call was abandoned, or only after one or two further calls of that caller, answers leaving each connection in request order -, never reply, close the connection, close the connection after reading the request and answer the retransmission late, send a server-originated request before or after the reply); the client optionally carries the correlation value middleware (a new value per request, one value shared by all requests, or every other request only), the server sending the values back as a 1.4 server does; the send/recv window is owned by the generator through the yield-point hook; real time, event driven; "+
 		"oracle: every call returns within 30 s with an error or the response echoing its own identifier, undisturbed calls succeed; non-trivial = a call cancelled mid-exchange is followed by a later call, or >= 2 callers; distinct by case").Attach(t)
 	if rp := evid.LoadReplay(name); rp != nil {
@@ -497,6 +536,7 @@ func TestC10OwnResponse(t *testing.T) {
 				if p.Cancel != "none" {
 					p.Cause = rapid.IntRange(0, 2).Draw(rt, "cause") == 0
 				}
+				p.Op = rapid.SampledFrom([]string{"", "", "", "query", "discover"}).Draw(rt, "op")
 				if (p.Server == "late" || p.Server == "close-late") && p.Cancel != "none" && p.Cancel != "pre" {
 					p.Hold = rapid.SampledFrom([]int{0, 0, 1, 2}).Draw(rt, "hold")
 				}
